@@ -293,3 +293,179 @@ Definition cc_clear_table_old (c : cc) (w : world) : res cc :=
 Theorem table_clear_moved_from w :
   cc_clear KTable MovedFrom w = Ok MovedFrom w /\ cc_clear_table_old MovedFrom w = NullCrew.
 Proof. split; reflexivity. Qed.
+
+(* ================================================================ round 3 *)
+(* ---- structure after an element-wise move *)
+Definition shape_total (sh : list (nat * nat)) : nat := fold_right (fun p acc => (snd p + acc)%nat) O sh.
+
+Lemma reshape_items sh : forall its, shape_total sh = length its -> flat_map nitems (reshape sh its) = its.
+Proof.
+  induction sh as [|[d c] r IH]; intros its H; simpl in *.
+  - destruct its; [reflexivity|discriminate].
+  - rewrite IH; [apply firstn_skipn|]. rewrite skipn_length. lia.
+Qed.
+Lemma reshape_shape sh : forall its, shape_total sh = length its ->
+  map (fun n => (ndepth n, length (nitems n))) (reshape sh its) = sh.
+Proof.
+  induction sh as [|[d c] r IH]; intros its H; simpl in *; [reflexivity|].
+  rewrite IH; [|rewrite skipn_length; lia]. rewrite firstn_length. f_equal. f_equal. lia.
+Qed.
+Lemma filter_values_items ks :
+  flat_map (fun k => map (fun _ : Z => mk k) (mvals k)) (filter has_values ks) =
+  flat_map (fun k => map (fun _ : Z => mk k) (mvals k)) ks.
+Proof.
+  induction ks as [|k r IH]; simpl; [reflexivity|]. unfold has_values at 1.
+  destruct (mvals k) eqn:E; simpl; rewrite ?E; simpl; rewrite IH; reflexivity.
+Qed.
+Lemma filter_values_valueless ks : length (filter (fun k => match mvals k with [] => true | _ => false end) (filter has_values ks)) = O.
+Proof.
+  induction ks as [|k r IH]; simpl; [reflexivity|]. unfold has_values at 1.
+  destruct (mvals k) eqn:E; simpl; [assumption|]. rewrite E. assumption.
+Qed.
+
+Lemma normal_form_items sh b :
+  (forall p nodes, b = STree p nodes -> shape_total sh = length (flat_map nitems nodes)) ->
+  sb_items (traversal_normal_form sh b) = sb_items b.
+Proof.
+  intros H. destruct b as [gens|p nodes|bk keys|raws rows free]; simpl; try reflexivity.
+  - apply reshape_items. eapply H. reflexivity.
+  - apply filter_values_items.
+Qed.
+
+(* the target of an element-wise move: same items, every block fresh through the TARGET's manager, at most one bucket
+   array, no value-less key, and for a tree exactly the shape of a freshly built tree *)
+Theorem s_elementwise_spec m cid sh b w b' w' :
+  (forall p nodes, b = STree p nodes -> shape_total sh = length (flat_map nitems nodes)) ->
+  s_elementwise_body m cid sh b w = (b', w') ->
+  sb_items b' = sb_items b /\
+  fresh_for m (next w) (next w') (sb_blocks b') /\
+  (length (gen_counts b') <= 1)%nat /\
+  valueless b' = O /\
+  (forall p nodes, b = STree p nodes -> sb_items b <> [] -> tree_shape b' = sh) /\
+  (forall pb cref ns, b' = STree (Some (pb, cref)) ns -> cref = cid).
+Proof.
+  intros Hs H. unfold s_elementwise_body in H.
+  destruct (s_copy_body_spec _ _ _ _ _ _ H) as (I & F & N & G & T & K & V & P & _).
+  rewrite (normal_form_items sh b Hs) in I.
+  repeat split; auto.
+  - rewrite V. destruct b; simpl; try reflexivity. apply filter_values_valueless.
+  - intros p nodes E Hne. subst b. rewrite T.
+    + simpl. apply reshape_shape. eapply Hs. reflexivity.
+    + rewrite (normal_form_items sh _ Hs). exact Hne.
+Qed.
+
+(* ---- TreeSet::MergeTo into a non-empty set *)
+Lemma nodes_in_bufs_mono (ns : list pnode) (bufs bufs' : list block) :
+  incl bufs bufs' ->
+  forallb (fun n => existsb (Z.eqb (pn_buf n)) (map fst bufs)) ns = true ->
+  forallb (fun n => existsb (Z.eqb (pn_buf n)) (map fst bufs')) ns = true.
+Proof.
+  intros Hi H. rewrite forallb_forall in *. intros n Hn. specialize (H n Hn).
+  apply existsb_exists in H. destruct H as (x & Hx & E). apply existsb_exists. exists x. split; [|exact E].
+  apply in_map_iff in Hx. destruct Hx as (b & Eb & Hb). apply in_map_iff. exists b. split; [exact Eb|apply Hi, Hb].
+Qed.
+
+(* fast path (equal managers): afterwards every buffer belongs to exactly one NodeParams -- the target's --, every node
+   of the joined tree lives in a buffer the target owns, all of them can be returned through the target's manager, and
+   the source owns nothing: it may die first or last *)
+Theorem merge_fast_ownership dst src :
+  cmgr (m_crew src) = cmgr (m_crew dst) ->
+  wf_blocks (cmgr (m_crew dst)) (m_bufs dst) -> wf_blocks (cmgr (m_crew src)) (m_bufs src) ->
+  nodes_in_own_bufs dst = true -> nodes_in_own_bufs src = true ->
+  NoDup (map fst (m_bufs dst ++ m_bufs src)) ->
+  let (dst', src') := merge_fast dst src in
+  nodes_in_own_bufs dst' = true /\
+  m_bufs src' = [] /\ m_nodes src' = [] /\
+  m_bufs dst' ++ m_bufs src' = m_bufs dst ++ m_bufs src /\
+  NoDup (map fst (m_bufs dst')) /\
+  wf_blocks (cmgr (m_crew dst')) (m_bufs dst') /\
+  m_items dst' = m_items dst ++ m_items src /\
+  m_crew dst' = m_crew dst /\ m_crew src' = m_crew src.
+Proof.
+  intros Em Wd Ws Nd Ns ND. simpl. repeat split; auto.
+  - unfold nodes_in_own_bufs in *. simpl. rewrite forallb_app. apply andb_true_iff. split.
+    + eapply nodes_in_bufs_mono; [|exact Nd]. apply incl_appl, incl_refl.
+    + eapply nodes_in_bufs_mono; [|exact Ns]. apply incl_appr, incl_refl.
+  - apply app_nil_r.
+  - unfold wf_blocks in *. apply Forall_app. split; [exact Wd|]. rewrite <- Em. exact Ws.
+  - unfold m_items. simpl. apply flat_map_app.
+Qed.
+
+(* ... which is why the code tests IsEqual first: with different managers the handed-over buffers could not be returned
+   through the target's manager *)
+Theorem merge_fast_needs_equal_managers dst src b :
+  cmgr (m_crew src) <> cmgr (m_crew dst) -> In b (m_bufs src) -> snd b = cmgr (m_crew src) ->
+  ~ wf_blocks (cmgr (m_crew dst)) (m_bufs (fst (merge_fast dst src))).
+Proof.
+  intros Hne Hin Hb W. simpl in W. unfold wf_blocks in W. rewrite Forall_forall in W.
+  specialize (W b (in_or_app _ _ _ (or_intror Hin))). congruence.
+Qed.
+
+Lemma move_destroy_ok (P : event -> bool) l :
+  (forall v, P (EMove v) = true) -> (forall v, P (EDestroy v) = true) -> forallb P (map EMove l ++ map EDestroy l) = true.
+Proof. intros A B. rewrite forallb_app, !forallb_map_const; auto. Qed.
+
+(* element-wise path (unequal managers / interleaving keys): the target allocates its own storage through its own
+   manager, the source keeps its buffers (they go back through ITS manager when it is cleared or destroyed), items are
+   moved, never copied *)
+Theorem merge_elementwise_ownership dst src w :
+  nodes_in_own_bufs dst = true ->
+  wf_blocks (cmgr (m_crew dst)) (m_bufs dst) ->
+  let '(dst', src', w') := merge_elementwise dst src w in
+  nodes_in_own_bufs dst' = true /\ wf_blocks (cmgr (m_crew dst')) (m_bufs dst') /\
+  m_bufs src' = m_bufs src /\ m_items src' = [] /\ m_items dst' = m_items dst ++ m_items src /\
+  (forall P, move_class P -> extends P w w').
+Proof.
+  intros Nd Wd. unfold merge_elementwise. destruct (m_items src) as [|i0 its] eqn:EI.
+  - repeat split; auto; try (rewrite app_nil_r; reflexivity). intros; apply extends_refl.
+  - simpl. repeat split; auto.
+    + unfold nodes_in_own_bufs in *. simpl. rewrite forallb_app. apply andb_true_iff. split.
+      * eapply nodes_in_bufs_mono; [|exact Nd]. apply incl_appl, incl_refl.
+      * simpl. rewrite andb_true_r. apply existsb_exists. exists (next w). split; [|apply Z.eqb_refl].
+        rewrite map_app. apply in_or_app. right. left. reflexivity.
+    + unfold wf_blocks in *. apply Forall_app. split; [exact Wd|]. constructor; [reflexivity|constructor].
+    + unfold m_items. simpl. rewrite flat_map_app. simpl. rewrite app_nil_r. reflexivity.
+    + intros P (PA & PD & PM & PX). apply extends_trans with (w2 := snd (alloc (cmgr (m_crew dst)) w)).
+      * eexists [_]. split; [reflexivity|]. simpl. rewrite PA. reflexivity.
+      * apply extends_emit. exact (move_destroy_ok P (i0 :: its) PM PX).
+Qed.
+
+(* ---- DataTable indexes *)
+Lemma copy_idxs_spec m n is : forall w is' w',
+  copy_idxs m n is w = (is', w') ->
+  map iunique is' = map iunique is /\ Forall (fun i => ientries i = n) is' /\
+  fresh_for m (next w) (next w') (flat_map iblocks is') /\ next w <= next w' /\
+  (n = O -> flat_map iblocks is' = []).
+Proof.
+  induction is as [|i r IH]; intros w is' w' H; simpl in H.
+  - inversion H; subst. repeat split; try constructor; lia.
+  - destruct n as [|n'].
+    + destruct (copy_idxs m 0 r w) as [r' w2] eqn:E. inversion H; subst; clear H.
+      destruct (IH _ _ _ E) as (U & En & F & N & Z0). simpl. repeat split; auto; try (f_equal; assumption).
+    + destruct (copy_idxs m (S n') r (mkW (next w + 1) (EAlloc m (next w) :: trace w))) as [r' w2] eqn:E.
+      inversion H; subst; clear H. destruct (IH _ _ _ E) as (U & En & F & N & _). simpl in *.
+      repeat split; auto; try (f_equal; assumption); try lia; try discriminate.
+      constructor; [simpl; split; [reflexivity|lia]|]. eapply fresh_for_widen; [| |exact F]; lia.
+Qed.
+
+(* copy of a table with indexes: every index definition is re-created with the same kind (unique / multi), holds one
+   entry per copied row, and its storage is fresh through the copy's manager -- nothing of the source's indexes is shared;
+   a move (DataTable(DataTable&&): mIndexes(std::move(...))) takes the index objects themselves *)
+Theorem s_copy_table_spec m cid t w t' w' :
+  s_copy_table m cid t w = (t', w') ->
+  sb_items (t_body t') = sb_items (t_body t) /\
+  map fst (idx_shape t') = map fst (idx_shape t) /\
+  Forall (fun p => snd p = table_rows (t_body t)) (idx_shape t') /\
+  fresh_for m (next w) (next w') (sb_blocks (t_body t') ++ idx_blocks t').
+Proof.
+  unfold s_copy_table. intros H.
+  destruct (s_copy_body m cid (t_body t) w) as [b' w1] eqn:E1.
+  destruct (copy_idxs m (table_rows (t_body t)) (t_idx t) w1) as [is' w2] eqn:E2.
+  inversion H; subst; clear H.
+  destruct (s_copy_body_spec _ _ _ _ _ _ E1) as (I & F1 & N1 & _).
+  destruct (copy_idxs_spec _ _ _ _ _ _ E2) as (U & En & F2 & N2 & _).
+  simpl. repeat split; auto.
+  - unfold idx_shape. simpl. rewrite !map_map. simpl. exact U.
+  - unfold idx_shape. simpl. apply Forall_map. simpl. exact En.
+  - apply fresh_for_app; [eapply fresh_for_widen; [| |exact F1]; lia|eapply fresh_for_widen; [| |exact F2]; lia].
+Qed.
